@@ -56,6 +56,9 @@ pub struct Variant {
     pub omit_signs: bool,
     pub comments: bool,
     pub crlf: bool,
+    /// arrays in YAML block style (one `- item` per line) instead of flow style `[a, b]`
+    #[serde(default)]
+    pub block: bool,
 }
 
 #[derive(Clone, Debug, Serialize, Deserialize, PartialEq)]
@@ -150,11 +153,25 @@ fn model_yaml(p: &ParamSpec, v: &Variant) -> String {
                 }
             })
             .collect();
-        s.push_str(&format!("opw_kinematics_joint_offsets: [{}]{}", items.join(", "), nl));
+        if v.block {
+            s.push_str(&format!("opw_kinematics_joint_offsets:{nl}"));
+            for it in &items {
+                s.push_str(&format!("  - {it}{nl}"));
+            }
+        } else {
+            s.push_str(&format!("opw_kinematics_joint_offsets: [{}]{}", items.join(", "), nl));
+        }
     }
     if !v.omit_signs {
         let items: Vec<String> = p.signs[..n].iter().map(|x| x.to_string()).collect();
-        s.push_str(&format!("opw_kinematics_joint_sign_corrections: [{}]{}", items.join(", "), nl));
+        if v.block {
+            s.push_str(&format!("opw_kinematics_joint_sign_corrections:{nl}"));
+            for it in &items {
+                s.push_str(&format!("  - {it}{nl}"));
+            }
+        } else {
+            s.push_str(&format!("opw_kinematics_joint_sign_corrections: [{}]{}", items.join(", "), nl));
+        }
     }
     if v.dof_place == 1 {
         s.push_str(&format!("dof: {}{}", p.dof, nl));
@@ -477,6 +494,9 @@ fn variant_features(p: &ParamSpec, v: &Variant) -> String {
     if v.crlf {
         f.push("crlf");
     }
+    if v.block {
+        f.push("block-arrays");
+    }
     if f.is_empty() {
         f.push("plain");
     }
@@ -575,6 +595,7 @@ fn gen_variant(w: &mut Rng) -> Variant {
         omit_signs: w.chance(0.15),
         comments: w.chance(0.4),
         crlf: w.chance(0.15),
+        block: w.chance(0.3),
     }
 }
 
@@ -688,6 +709,7 @@ pub fn run(tier_name: &str, seed: u64) -> i32 {
                 if v.five { tally.bump("variant_five_entries", 1); }
                 tally.bump(&format!("variant_dof_place_{}", v.dof_place), 1);
                 if v.crlf { tally.bump("variant_crlf", 1); }
+                if v.block { tally.bump("variant_block_arrays", 1); }
             }
             if pa.dof == 5 { tally.bump("bases_dof5", 1); }
             if tally.samples.len() < 2 {
